@@ -292,12 +292,11 @@ def run(work, tier, replay=None):
         # The repaired code (the queue is consumed while HandleDisconnect runs) has no deadlock for connections that end; the
         # code before the repair is refuted (D11, replayed by scenarios/l2_D11_*); a design that hands parked updates over
         # directly has none at all.  With session switches the model still deadlocks (the handler leaves the old session inside
-        # handleMessage): a lead that was not reproduced on the real server - recorded, not claimed.
-        model_leads = []
+        # handleMessage, where the queue cannot be discarded): the open finding D21, replayed by scenarios/l2_D21_*.
         for (fq, fn) in ([(2, 6)] if tier == "quick" else [(2, 6), (3, 8), (4, 9)]):
             for flush, drain, sw, kind, name in (("queue", True, False, "good", "code, connections that end"), ("direct", False, True, "good", "direct hand-over"),
                                                  ("queue", False, False, "refuted", "no_drain_while_leaving(D11)"),
-                                                 ("queue", True, True, "lead", "switch of session with a full queue")):
+                                                 ("queue", True, True, "refuted", "switch_of_session_with_a_full_queue(D21, open)")):
                 cfg = ('SPECIFICATION Spec\nCONSTANTS\n  Q = %d\n  N = %d\n  Flush = "%s"\n  DiscDrain = %s\n  Switches = %s\n'
                        'INVARIANTS TypeOK NoCallAfterCancel\nPROPERTIES HandlerReturns\n' % (fq, fn, flush, str(drain).upper(), str(sw).upper()))
                 r = work.tlc("frameflow", "FrameFlow", cfg, workers=4, timeout=900, dump=False)
@@ -308,10 +307,8 @@ def run(work, tier, replay=None):
                     if dead or "error" in r:
                         raise Inconclusive("TLC refutes the frame path (%s) on FrameFlow (Q=%d, N=%d)" % (name, fq, fn))
                     mc_runs.append(dict(K="FrameFlow Q=%d %s" % (fq, name), Q=fn, distinct=r.get("distinct", 0), generated=r.get("generated", 0), violated=None))
-                elif kind == "refuted":
-                    leads.append(dict(design="%s Q=%d N=%d" % (name, fq, fn), refuted=dead))
                 else:
-                    model_leads.append(dict(design="%s Q=%d N=%d" % (name, fq, fn), deadlock_in_the_model=dead, reproduced_on_the_code=False))
+                    leads.append(dict(design="%s Q=%d N=%d" % (name, fq, fn), refuted=dead))
         if not all(l["refuted"] for l in leads):
             raise Inconclusive("a design known to be wrong is not refuted by the specification: %s" % [l["design"] for l in leads if not l["refuted"]])
         work.log("ConnLife: %s; unrepaired designs refuted: %s" % (
@@ -330,7 +327,7 @@ def run(work, tier, replay=None):
     # the scenarios that move tens of megabytes (stalled members) run after the timing-sensitive ones (idle timeouts of
     # 250 ms), not beside them
     nproc = 4
-    is_heavy = lambda s: str(s.get("cls", "")).startswith("stalled_member")
+    is_heavy = lambda s: str(s.get("cls", "")).startswith("stalled_member") or s.get("heavy")
     rounds = [[s for s in scs if not is_heavy(s)], [s for s in scs if is_heavy(s)]]
     results = {}
 
@@ -445,13 +442,12 @@ def run(work, tier, replay=None):
     coverage = dict(states=sum(m["distinct"] for m in mc_runs) or 1, transitions=sum(m["generated"] for m in mc_runs) or 1,
                     traces_validated_against_impl=nh, events=nev, scenarios=len(scs), classes=len(CLASSES), life_points=LIFE,
                     connlife_runs=mc_runs, unrepaired_designs_refuted=(leads if not replay else []),
-                    model_leads_not_reproduced=(model_leads if not replay else []),
                     samples=[dict(scenario=scs[0]["sid"], ops=scs[0]["ops"][-6:], events=results[scs[0]["sid"]]["events"][-8:])],
                     problems=[dict(sid=s["sid"], what=b) for s, b in problems][:20])
     write_evidence(work, "model_checking", coverage,
                    ["'all byte sequences' is an input space: the specification contributes the frame classes (decodable with/without core handler, junk) and the oracle; bytes inside a class are seeded samples",
                     "real time: idle timeout 250 ms, frames 2 ms; a wedge is reported only when a handler has not returned 3 s after every client is gone and the goroutine profile still shows it",
-                    "send path and frame path: ConnSend.tla / FrameFlow.tla are checked exhaustively for small queue capacities (3-6 instead of 512, 2-4 instead of 256); their binding to the code is the replay of their counterexamples as wire-level scenarios (stalled member reset / stalled for good / full scheduler queue), with the victim's main loop held for 0-400 ms at the entry of HandleDisconnect to place the schedule; the repaired designs are accepted, the earlier designs (D19, D20, D11) must stay refuted; the deadlock FrameFlow still has on the session-switch path is a lead that was not reproduced on the code",
+                    "send path and frame path: ConnSend.tla / FrameFlow.tla are checked exhaustively for small queue capacities (3-6 instead of 512, 2-4 instead of 256); their binding to the code is the replay of their counterexamples as wire-level scenarios (stalled member reset / stalled for good / full scheduler queue), with the victim's main loop held for 0-400 ms at the entry of HandleDisconnect to place the schedule; the repaired designs are accepted, the earlier designs (D19, D20, D11) must stay refuted; the deadlock FrameFlow still has on the session-switch path is the open finding D21 (replayed with the victim's main loop held inside one handler call: hold_ms)",
                     "the server runs in the harness process; inputs known to exhaust memory (finite but huge ground-plane coordinates) are excluded and listed as a finding"],
                    violations=len(violations))
     for kf in known:
